@@ -20,6 +20,7 @@ T[04ccb58]="C06"
 T[24826b0]="C18"
 T[43b4aa1]="C17"
 T[e75b232]="C09"
+T[cfc61f8]="C07"
 for p in mutants/revert-*.patch; do
   h=$(basename $p | cut -d- -f2)
   echo "== $(basename $p)"
